@@ -211,8 +211,9 @@ Section Bridge.
     nonempty n = true -> ~ In n (map fst (decl_cplx prev)) ->
     expand_ker prev names sst = Some (names', sst') ->
     rot_dict names' sst' = Some cdict -> canon_of cdict = Some (cn, e) -> rot_disjoint prev cdict ->
-    exists r' acc', read_one ct G None (TList line) acc r = (r', Ok acc') /\
-      SInv (prev ++ [SKer n names sst conc]) r' acc' /\ Later r acc r' acc'.
+    exists r' i, (forall accR, read_one ct G None (TList line) accR r = (r', Ok (apply_delta (FKind KindC n i) accR))) /\
+      SInv (prev ++ [SKer n names sst conc]) r' (apply_delta (FKind KindC n i) acc) /\
+      Later r acc r' (apply_delta (FKind KindC n i) acc).
   Proof.
     intros SI Hdec Hne Hnew Hexp Hrd Hcan Hdis. pose proof SI as [C B].
     set (st := r_st r). set (i := length (heap st)).
@@ -286,6 +287,6 @@ Section Bridge.
     - intros n0 names0 sst0 Hin L'. cbn [cplx_entry] in Hin. unfold expand_ker in Hin.
       rewrite El, Nat.eqb_refl, Eo in Hin. destruct Hin as [Hin|[]]. injection Hin as <- <- <-.
       exists conc. apply HBC. exact L'.
-    - eauto.
+    - eexists. eexists. split; [exact E3 | split; [exact SI' | exact L']].
   Qed.
 End Bridge.
